@@ -1,5 +1,6 @@
 import re
 from copy import deepcopy
+from fractions import Fraction
 
 from .base import (
     BaseReader, BaseWriter, CaptionSet, CaptionList, Caption, CaptionNode,
@@ -35,7 +36,7 @@ class MicroDVDReader(BaseReader):
 
             if start == '0' and end == '0':
                 try:
-                    fps = float(txt)
+                    fps = Fraction(txt.strip())
                     continue
                 except ValueError:
                     raise CaptionReadTimingError(
@@ -67,7 +68,7 @@ class MicroDVDReader(BaseReader):
         return caption_set
 
     def _framestomicro(self, framenum, fps=25.0):
-        return int(framenum / fps * (10 ** 6))
+        return int(framenum * (10 ** 6) / fps)
 
 
 class MicroDVDWriter(BaseWriter):
